@@ -218,6 +218,42 @@ JudgePathTo(rec) ==
     IN IF bad = {} THEN TRUE ELSE Fail(rec.id, rec.routes[SetMin(bad)] \o ":" \o cl[SetMin(bad)])
 
 ----------------------------------------------------------------------------
+\* kind "derived" (extension X02): functions derived from a best path
+\*   p / amount / extra / steps : warping_path_penalty -> path, warping_amount(path), (total - distance) in the
+\*       scaled unit, cumulative-cost differences along the path (internal domain, euclidean inner distance only)
+\*   wp / warp                  : dtw.warp -> path used and, per column of series 2, <<sum * S, count>> of the
+\*       series-1 values aligned to it (the returned value is sum / count)
+RECURSIVE SumPairs(_)
+SumPairs(S) == IF S = {} THEN 0 ELSE LET x == CHOOSE y \in S : TRUE IN x[2] + SumPairs(S \ {x})
+WarpAmount(p) == Cardinality({q \in 2..Len(p) : ~(p[q][1] = p[q - 1][1] + 1 /\ p[q][2] = p[q - 1][2] + 1)})
+DerivedClause(rec) ==
+    LET c == rec.c
+        opt == Opt(c)
+        M == OptMatrix(c)
+        pc == PathClause(c, rec.p, opt)
+        wc == PathClause(c, rec.wp, opt)
+        structural == {"empty", "range", "steps", "band", "maxstep", "start"}
+    IN IF IsInf(opt) THEN "ok"
+       ELSE IF pc \in structural THEN "penalty-path:" \o pc
+       ELSE IF rec.amount # WarpAmount(rec.p) THEN "warping_amount"
+       ELSE IF rec.extra # rec.pp * WarpAmount(rec.p) THEN "penalty_post-not-amount-times-penalty"
+       ELSE IF rec.steps # <<>> /\ (Len(rec.steps) # Len(rec.p) - 1 \/ \E q \in 2..Len(rec.p) :
+                    rec.steps[q - 1] # OptTo(M, rec.p[q][1], rec.p[q][2]) - OptTo(M, rec.p[q - 1][1], rec.p[q - 1][2]))
+            THEN "path_stepsize"
+       ELSE IF wc # "ok" THEN "warp-path:" \o wc
+       ELSE IF Len(rec.warp) # L2(c) THEN "warp-length"
+       ELSE IF \E j \in 1..L2(c) :
+                 LET rows == {q \in 1..Len(rec.wp) : rec.wp[q][2] = j - 1}
+                 IN \/ rec.warp[j][2] # Cardinality(rows)
+                    \/ rec.warp[j][1] # SumPairs({<<q, c.s1[rec.wp[q][1] + 1][1]>> : q \in rows})
+            THEN "warp-not-the-mean-of-the-aligned-values"
+       \* optimality of the penalty path is judged last, so that the recorded finding (back-tracking without
+       \* the penalty) cannot mask another rejection of the same record
+       ELSE IF pc # "ok" THEN "penalty-path:" \o pc
+       ELSE "ok"
+JudgeDerived(rec) == LET cl == DerivedClause(rec) IN IF cl = "ok" THEN TRUE ELSE Fail(rec.id, cl)
+
+----------------------------------------------------------------------------
 JudgeRec(rec) ==
     CASE rec.kind = "dist" -> JudgeDist(rec)
       [] rec.kind = "agree" -> JudgeAgree(rec)
@@ -226,6 +262,7 @@ JudgeRec(rec) ==
       [] rec.kind = "wps" -> JudgeWps(rec)
       [] rec.kind = "path" -> JudgePath(rec)
       [] rec.kind = "pathto" -> JudgePathTo(rec)
+      [] rec.kind = "derived" -> JudgeDerived(rec)
 
 Verdict == lvl = 2 => JudgeRec(T[k])
 =============================================================================
